@@ -107,6 +107,41 @@ def eval_history(args):
     return dict(known=True) if known else None
 
 
+XT_SCHEMA = '''<xs:schema xmlns:xs="http://www.w3.org/2001/XMLSchema">
+  <xs:complexType name="base"><xs:sequence><xs:element name="k" type="xs:string"/></xs:sequence></xs:complexType>
+  <xs:complexType name="ext"><xs:complexContent><xs:extension base="base"><xs:sequence><xs:element name="x" type="xs:int" maxOccurs="unbounded"/></xs:sequence></xs:extension></xs:complexContent></xs:complexType>
+  <xs:element name="item" type="base"/>
+  <xs:element name="root"><xs:complexType><xs:sequence>
+      <xs:element name="a" minOccurs="0"><xs:complexType><xs:sequence><xs:element ref="item" maxOccurs="unbounded"/></xs:sequence></xs:complexType>
+         <xs:unique name="k1"><xs:selector xpath=".//x"/><xs:field xpath="."/></xs:unique></xs:element>
+      <xs:element name="b" minOccurs="0"><xs:complexType><xs:sequence><xs:element ref="item" maxOccurs="unbounded"/></xs:sequence></xs:complexType>
+         <xs:unique name="k2"><xs:selector xpath=".//x"/><xs:field xpath="."/></xs:unique></xs:element>
+  </xs:sequence></xs:complexType><xs:key name="k0"><xs:selector xpath="a/item|b/item"/><xs:field xpath="k"/></xs:key></xs:element></xs:schema>'''
+_XSI = 'xmlns:xsi="http://www.w3.org/2001/XMLSchema-instance"'
+XT_DOCS = [f'<root {_XSI}><a><item xsi:type="ext"><k>a</k><x>1</x><x>2</x></item></a></root>', f'<root {_XSI}><b><item xsi:type="ext"><k>a</k><x>1</x><x>1</x></item></b></root>',
+           f'<root {_XSI}><a><item xsi:type="ext"><k>a</k><x>1</x><x>1</x></item></a><b><item><k>a</k></item></b></root>', '<item><k>a</k></item>', '<k>a</k>', '<x>1</x>',
+           f'<item {_XSI} xsi:type="ext"><k>a</k><x>7</x></item>', f'<root {_XSI}><b><item xsi:type="nope"><k>a</k></item></b></root>']
+
+
+def eval_xsi_histories(ver):
+    """xsi:type on a shared global declaration met under one identity scope, then under another; documents whose root is named like a local element of a type that was reached
+    through xsi:type: every document gets, after every other one on the same schema object, the outcome a fresh schema gives it"""
+    import xmlschema
+    def outcome(s, d):
+        out = {}
+        for name, f in (('iter_errors', lambda: [e.reason for e in s.iter_errors(d)]), ('is_valid', lambda: s.is_valid(d)), ('decode', lambda: (repr(s.decode(d, validation='lax')[0]), len(s.decode(d, validation='lax')[1])))):
+            try: out[name] = f()
+            except Exception as e: out[name] = f'{type(e).__name__}'
+        return out
+    fresh = [outcome(_cls(ver)(XT_SCHEMA), d) for d in XT_DOCS]; bad = []; n = 0
+    for i, d1 in enumerate(XT_DOCS):
+        for j, d2 in enumerate(XT_DOCS):
+            n += 1
+            s = _cls(ver)(XT_SCHEMA); outcome(s, d1); got = outcome(s, d2)
+            if got != fresh[j]: bad.append(dict(ver=ver, first=d1, then=d2, got={k: v for k, v in got.items() if v != fresh[j][k]}, fresh={k: v for k, v in fresh[j].items() if v != got[k]}))
+    return n, bad
+
+
 def run(tier, seed, open_findings):
     rng = random.Random(seed); n = 4000 if tier == 'thorough' else 80
     hists = [[(rng.choice(OPS), rng.randrange(len(DOCS))) for _ in range(6)] for _ in range(n)]
@@ -117,10 +152,16 @@ def run(tier, seed, open_findings):
     fails = [dict(case=dict(ver=r['ver'], history=r['history']), observed=dict(got=r['got'], fresh=r['fresh']), required='result equals the fresh-schema result') for r in res if r and not r.get('known')]
     if nk and K not in open_findings:
         fails.append(dict(case=dict(ver='1.0', history=[['iter_errors', MIDRUN]]), observed='a fresh schema reports a spurious substitution error after a mid-run namespace load, a used one does not', required='result equals the fresh-schema result'))
-    return [result('C10.call_histories', f'{len(hists)} seeded histories of 6 calls over {len(OPS)} operations x {len(DOCS)} documents x 2 classes', len(jobs) * 6, fails, known=({K: nk} if nk and K in open_findings else {}),
+    xr = pmap(eval_xsi_histories, ['1.0', '1.1'], chunk=1); xf = [dict(case=b, observed=dict(got=b['got'], fresh=b['fresh']), required='result equals the fresh-schema result') for _, bb in xr for b in bb]
+    return [result('C10.xsi_type_histories', f'{len(XT_DOCS)} x {len(XT_DOCS)} ordered pairs of documents (xsi:type under two identity scopes, roots named like local elements) x 3 operations x 2 classes', sum(n for n, _ in xr) * 3, xf,
+                   samples=[dict(first=XT_DOCS[0], then=XT_DOCS[1])], distinct=sum(n for n, _ in xr)),
+            result('C10.call_histories', f'{len(hists)} seeded histories of 6 calls over {len(OPS)} operations x {len(DOCS)} documents x 2 classes', len(jobs) * 6, fails, known=({K: nk} if nk and K in open_findings else {}),
                    samples=[dict(history=hists[0][:3])], distinct=len(jobs))]
 
 
 def replay(check_name, case):
+    if check_name == 'C10.xsi_type_histories':
+        bad = [b for b in eval_xsi_histories(case['ver'])[1] if b['first'] == case['first'] and b['then'] == case['then']]
+        return dict(ok=not bad, observed=bad[:1], required='result equals the fresh-schema result')
     r = eval_history((case['ver'], [(op, MIDRUN if i == 'MIDRUN' else i) for op, i in case['history']]))
     return dict(ok=r is None, observed=r, required='result equals the fresh-schema result')
